@@ -253,6 +253,7 @@ def _fp_match(pattern, fp):
 
 
 def run_check(prop, fn, tier, seed):
+    tlc.scratch()  # created BEFORE any worker is forked: workers inherit it (they leave through os._exit and would leak their own)
     ctx = Ctx(prop, tier, seed)
     try:
         fn(ctx)
